@@ -17,4 +17,5 @@ def scen(n, what):
 
 
 GROUPS = [scen(1, "register ab, ba, a: the second name misses the 5-byte string pool by exactly its terminating NUL"), scen(2, "register a, b, ab, then lookups: the entry table grows twice with re-hashing"),
-          scen(3, "register a, b, ba; delete the last entry, delete another entry: index cache invalidation")]   # the generic K-step exploration (sym(3, 1), sym(4, 1)) never finished within 6000 s and is not registered
+          scen(3, "register a, b, ba; delete the last entry, delete another entry: index cache invalidation"),
+          scen(4, "register ab, a; delete ab; register b: the full string pool is compacted (more than half of it belongs to deleted names); lookup a")]   # the generic K-step exploration (sym(3, 1), sym(4, 1)) never finished within 6000 s and is not registered
